@@ -117,7 +117,8 @@ def run(ck, w):
         ck.fail(o, "io::directory_is_empty", "anchor-missing", "directory_is_empty not found")
     else:
         allowed = re.compile(r"^std::fs::read_dir$|Try>?::branch$|::from_residual$|Iterator>?::next$|^std::iter::Iterator::(next|count)$|"
-                             r"Option::<T>::(is_none|is_some)$|IntoIterator>?::into_iter$|^std::convert::(From::from|Into::into)$|From<.*>>?::from$")
+                             r"Option::<T>::(is_none|is_some|map|map_or|is_some_and|is_none_or)$|IntoIterator>?::into_iter$|^std::convert::(From::from|Into::into)$|From<.*>>?::from$|"
+                             r"^std::result::Result::<T, E>::(map|and_then|map_err)$|^std::iter::Iterator::(peekable|any|all)$|Peekable<I>::peek$")
         other = []
         rd = []
         for fb in fam:
